@@ -138,7 +138,7 @@ def oracle_c06(w, trace, report):
             report("C06:unfinished-negative" + (":after-resubmit" if resub else ""),
                    f"unfinishedJobs = {sn['unfinished']} after step {si}")
         # wait() only once every submitted job is final
-        if sn["wait"] in ("returned", "raised") and prev_wait not in ("returned", "raised"):
+        if sn["wait"] in ("returned", "raised") and (s["act"][0] in ("wait", "exit") or prev_wait == "blocked"):
             notfinal = [j for j, o in enumerate(sn["jobs"]) if o is not None and o["registered"] and o["result"] is None]
             if notfinal:
                 report("C06:wait-early" + (":after-resubmit" if resub else ""),
@@ -189,7 +189,15 @@ def oracle_c04_deps(w, trace, report):
         want = upstream(w, trace, j)
         if got != want:
             missing = [k for k in want if k not in got]
-            extra = [k for k in got if k not in want]
+            # a dependency on a task further upstream is implied anyway (the code also searches the
+            # pre-tasks and init tasks of a task it stops at): only a non-ancestor is reported
+            anc, todo = set(), list(want)
+            while todo:
+                k = todo.pop()
+                if k not in anc:
+                    anc.add(k)
+                    todo.extend(upstream(w, trace, k))
+            extra = [k for k in got if k not in anc]
             hows = sorted({h for (kk, h) in spec["embed"] if resolve(trace, kk) in missing})
             dupobj = any(h.endswith("_obj") and trace["dup"][kk] is not None for (kk, h) in spec["embed"]
                          if resolve(trace, kk) in missing)
@@ -197,7 +205,8 @@ def oracle_c04_deps(w, trace, report):
                 key = "C04:dependency-missing:" + ("duplicate-object" if dupobj else "+".join(hows))
                 report(key, f"job {j}: upstream {missing} (embedded as {hows}) not among the registered dependencies {got}")
             if extra:
-                report("C04:dependency-extra", f"job {j}: registered dependencies {extra} are not upstream tasks of its parameters")
+                viadup = any(h.endswith("_obj") and trace["dup"][kk] is not None for (kk, h) in spec["embed"])
+                report("C04:dependency-extra" + (":parameters-of-duplicate-object" if viadup else ""), f"job {j}: registered dependencies {extra} are not upstream tasks of its parameters")
 
 
 def g_value(v):
@@ -263,16 +272,18 @@ def oracle_c07(w, trace, report):
             if o["launches"] != 1 or o["result"] != should:
                 report(f"C07:independent-affected:{should}-got-{o['result']}-launches-{o['launches']}",
                        f"job {j} (upstream all DONE) launches={o['launches']} result={o['result']}")
-    # leaving the experiment reports failure iff some job failed
+    # leaving the experiment reports failure iff some job failed (looked at when wait() completes)
+    prev_wait = "none"
     for s in trace["steps"]:
         sn = s["snap"]
-        if s["act"][0] in ("wait", "exit") or sn["wait"] in ("returned", "raised"):
+        if sn["wait"] in ("returned", "raised") and (s["act"][0] in ("wait", "exit") or prev_wait == "blocked"):
             anyerr = any(o is not None and o["registered"] and o["result"] == "ERROR" for o in sn["jobs"])
             allfinal = all(o is None or not o["registered"] or o["result"] is not None for o in sn["jobs"])
-            if sn["wait"] == "raised" and not anyerr:
+            if sn["wait"] == "raised" and not anyerr and allfinal:
                 report("C07:failure-reported-without-failed-job", "FailedExperiment raised, no job ended ERROR")
-            if sn["wait"] == "returned" and anyerr and allfinal:
+            if sn["wait"] == "returned" and anyerr:
                 report("C07:failure-not-reported", "wait() returned normally although a job ended ERROR")
+        prev_wait = sn["wait"]
 
 
 # ------------------------------------------------------------------------------ Gallina
